@@ -899,7 +899,7 @@ class Unit:
             # The resulting quantity may get quantized. Therefore we
             # have to calculate the final amount before creating the result!
             amnt, unit = self / other.unit
-            return (other.amount * amnt) * unit
+            return (amnt / other.amount) * unit
         return NotImplemented
 
     def __rtruediv__(self, other: Any) -> Quantity:
